@@ -815,6 +815,15 @@ func (env *SpecEnv) evalCall(e *ast.CallExpr) (TV, error) {
 			return TV{slLen(x.t), types.Typ[types.Int]}, nil
 		}
 		return TV{}, fmt.Errorf("len of %s", x.t.sort)
+	case "arr":
+		x, err := env.eval(e.Args[0])
+		if err != nil {
+			return TV{}, err
+		}
+		if !strings.HasPrefix(x.t.sort, "Slice_") {
+			return TV{}, fmt.Errorf("arr of %s", x.t.sort)
+		}
+		return TV{slArr(x.t), nil}, nil
 	case "forall", "exists":
 		if len(e.Args) != 4 {
 			return TV{}, fmt.Errorf("%s(i, lo, hi, body)", id.Name)
@@ -893,6 +902,8 @@ func (env *SpecEnv) evalCall(e *ast.CallExpr) (TV, error) {
 			return TV{}, err
 		}
 		return TV{Eq(x.t, T{ZeroTime, SInt}), boolT}, nil
+	case "now":
+		return TV{ex.ghostGet(env.state(), "now"), nil}, nil
 	case "fresh":
 		// fresh(p): p was allocated by this call
 		x, err := env.eval(e.Args[0])
